@@ -8,6 +8,7 @@
 From Coq Require Import List Arith Lia Bool Permutation.
 Import ListNotations.
 From TB Require Import ExecModel ExecProofs BalanceModel BalanceProofs ExecRun ExecRunProofs.
+From TB Require SystemModel SystemProofs EstablishProofs TerminationProofs.
 
 Section C05.
 Variable piece : Type.
@@ -73,6 +74,24 @@ Theorem C05_accepted_log_is_model_path n nfiles gid q0 evs x' : length q0 = n ->
   exists s', ExecModel.reach nat n (balanced nfiles gid) (ExecModel.init nat n (qfun q0)) s' /\ R n x' s'.
 Proof. exact (accepted_log_is_model_path n nfiles gid q0 evs x'). Qed.
 
+(** THE EVALUATIONS THEMSELVES TERMINATE.  The scanning phase as the transition system of
+    SystemModel.v (a pool of piece evaluations over one shared file system; steps: any program's
+    next action, failed operations, arbitrary read answers, a write cut short) has no infinite
+    path: the converse of its step relation is well-founded.  So the "solve" steps the executor
+    model takes for granted always return, under every interleaving and every fault pattern. *)
+Theorem C05_every_evaluation_terminates : well_founded (fun s' s => SystemModel.sstep s s').
+Proof. exact TerminationProofs.scanning_terminates. Qed.
+
+(** ... and in the fault-free system a run of good programs can always be completed; when nothing
+    can move any more every program has returned (no evaluation is stuck half-way). *)
+Theorem C05_fault_free_run_completes content es s : SystemProofs.table_functional content es ->
+  SystemProofs.alias_free content es (SystemModel.s_fs s) -> Forall (SystemProofs.pgood content es) (SystemModel.s_pool s) ->
+  exists s', EstablishProofs.freach s s' /\ TerminationProofs.finished s'.
+Proof. exact (fun Hfun => TerminationProofs.fault_free_run_completes content es Hfun s). Qed.
+
+Theorem C05_stuck_means_all_returned s : (forall s', ~ SystemModel.sstep s s') -> TerminationProofs.finished s.
+Proof. exact (TerminationProofs.stuck_is_finished s). Qed.
+
 Print Assumptions C05_work_conserved.
 Print Assumptions C05_exactly_once.
 Print Assumptions C05_deadlock_free.
@@ -81,3 +100,6 @@ Print Assumptions C05_balance_moves_every_item.
 Print Assumptions C05_balance_outside_untouched.
 Print Assumptions C05_balance_even.
 Print Assumptions C05_accepted_log_is_model_path.
+Print Assumptions C05_every_evaluation_terminates.
+Print Assumptions C05_fault_free_run_completes.
+Print Assumptions C05_stuck_means_all_returned.
